@@ -77,6 +77,8 @@ class World:
     found = None
     for n in cls.body:
       if isinstance(n, (ast.FunctionDef, ast.AsyncFunctionDef)) and n.name == name:
+        if any(d.endswith('overload') for d in decorators(n)):
+          continue          # typing stubs: the implementation follows
         # For property setters keep the getter (first definition).
         if found is None:
           found = n
